@@ -277,6 +277,21 @@ func C10Scenarios(tier string) []*h.Scenario {
 		o.Prune = true
 		out = append(out, o)
 	}
+	// a spot group holding a protected tainted node whose instance is no longer listed by the ASG (an
+	// operator detached it for debugging): the annotation protects it there too
+	{
+		s := c10Scenario("c10.spot-detached", false, 1, "expired")
+		s.Groups[0].Opts.AWS.Lifecycle = "spot"
+		s.Slots = 5
+		inner := s.Init
+		g0 := s.Groups[0]
+		s.Init = func(hh *h.Hist) {
+			inner(hh)
+			other := hh.W.AddASG(sim.ASG{Name: "asg-detached", Min: 0, Max: 5, LabelKey: g0.Opts.LabelKey, LabelValue: g0.Opts.LabelValue})
+			hh.W.AddNode(other, sim.NodeOpt{Age: 50 * Q, TaintAge: dp(6 * Q), Annotation: "debugging"})
+		}
+		out = append(out, s)
+	}
 	// a removal call fails in one scan and the node is annotated before the next one
 	for _, world := range []string{"expired", "fresh"} {
 		s := c10Scenario("c10."+world+".removal-fault-then-annotate", false, 1, world)
